@@ -42,6 +42,9 @@ func DecodeDecrypt(
 			return nil, errors.Wrapf(err, "DecodeDecrypt()")
 		}
 	} else {
+		if len(msg) < message.IKE_HEADER_LEN {
+			return nil, errors.Errorf("DecodeDecrypt(): Received broken IKE header")
+		}
 		ikeMsg.IKEHeader = ikeHeader
 		err = ikeMsg.DecodePayload(msg[message.IKE_HEADER_LEN:])
 		if err != nil {
